@@ -214,6 +214,25 @@ fn id_annot_to_doc(
   )
 }
 
+/// Whether the printed form of the expression ends with a field or method access
+/// without type arguments. The parser reads a `<` that follows it as the start of
+/// type arguments, so such an expression cannot be the bare left operand of `<`.
+fn ends_with_access_without_type_arguments(expression: &expr::E<()>) -> bool {
+  match expression {
+    expr::E::FieldAccess(e) => e.explicit_type_arguments.is_none(),
+    expr::E::MethodAccess(e) => e.explicit_type_arguments.is_none(),
+    expr::E::Unary(e) => {
+      e.argument.precedence() < expression.precedence()
+        && ends_with_access_without_type_arguments(&e.argument)
+    }
+    expr::E::Binary(e) => {
+      e.e2.precedence() < expression.precedence()
+        && ends_with_access_without_type_arguments(&e.e2)
+    }
+    _ => false,
+  }
+}
+
 fn create_doc_for_subexpression_considering_precedence_level(
   heap: &Heap,
   comment_store: &CommentStore,
@@ -620,6 +639,21 @@ fn create_doc_without_preceding_comment(
         Document::Text(e.operator.kind_str()),
         Document::Text(" "),
       ]);
+      if e.operator == expr::BinaryOperator::LT && ends_with_access_without_type_arguments(&e.e1) {
+        // `a.b < c` would be parsed as `a.b<c ...` with type arguments.
+        return Document::concat(vec![
+          parenthesis_surrounded_doc(create_doc(heap, comment_store, &e.e1)),
+          operator_preceding_comments_docs,
+          operator_doc,
+          create_doc_for_subexpression_considering_precedence_level(
+            heap,
+            comment_store,
+            expression,
+            &e.e2,
+            true,
+          ),
+        ]);
+      }
       if e.e1.precedence() == expression.precedence() {
         // Since we are doing left to right evaluation, this is safe.
         return Document::concat(vec![
